@@ -130,7 +130,7 @@ impl Prop for C15Prop {
         let mut rng = Rng::new(seed, "config");
         let specs = Specs::from_index(idx as usize % 96);
         let mut case = Case::new("C15", seed, specs);
-        let o = gen::HistOpts { specs, max_ops: 24, regime: gen::regime_any(&mut rng, true), derived: true, restart: true, names_min: 3, names_max: 6, dup_bias: 35 };
+        let o = gen::HistOpts { specs, max_ops: 24, regime: gen::regime_any(&mut rng, true), derived: true, restart: true, names_min: 3, names_max: if rng.chance(1, 3) { 14 } else { 6 }, dup_bias: 35, big: rng.chance(1, 300) };
         let mut wr = Rng::new(seed, "workload");
         case.ops = gen::gen_history(&mut wr, &o);
         if !case.ops.iter().any(|o| o.is_derived()) {
@@ -144,7 +144,7 @@ impl Prop for C15Prop {
             };
             case.ops.push(op);
         }
-        case.envs = gen::keyings(seed, 2).into_iter().map(|k| Env { keying: k, pool: 1, sched: 0 }).collect();
+        case.envs = gen::envs(seed, 2);
         case
     }
     fn run_env(&self, case: &Case, _env: &Env, cx: &mut Ctx) {
